@@ -21,7 +21,7 @@ RULE = ('case = (operator program of assign/filter operators from the C08 gramma
         'differential against the sequential single-stage run of the same case: equal multiset of emitted records and equal '
         'aggregate, exactly one AggregateResult for the interleaved runner; non-trivial = threads >= 2 or stages >= 2 or shards >= 2 '
         'with >= 3 records; distinct = distinct canonical case JSON'
-        '; also: sources as merged sequences with boundaries at shard ends, shard states merged from a one-shot stream, stage-by-stage manual runs, interleaved runs with aggregate_only, shard states merged by the aggregate-only runner, a second aggregate with a bare-number state (minimum) and a third counting rows in a plain int, merges with and without a strict state count')
+        '; also: sources as merged sequences with boundaries at shard ends, shard states merged from a one-shot stream, stage-by-stage manual runs, interleaved runs with aggregate_only, shard states merged by the aggregate-only runner, a second aggregate with a bare-number state (minimum) and a third counting rows in a plain int, merges with and without a strict state count; scenario threads_line_preemption: named stages with their own thread counts (0 / 2 / 3 per stage) under the deterministic scheduler with 1..4 generated preemptions between source lines of the library (positions drawn as fractions of the line count of the run)')
 ASSUMPTIONS = [
     'threaded variants run under vlib/dsched.py (same trusted base as C04); the interleaved runner uses real threads with a watchdog',
     'the aggregate is exact (integer sum / row count) so merged shard states must reproduce it exactly',
